@@ -363,6 +363,15 @@ def run(ctx):
                     if nxt is None:
                         break
                     cur = nxt
+        # the total that is compared must already contain the new bytes: the comparison is dominated by the `size +=` of this call
+        adds = [i2 for i2, j2, s2 in b.stmts() if s2['k'] == 'assign' and any(isinstance(e, dict) and e.get('n') == 'size' for e in s2['place']['p'])] + \
+               [bb2 for bb2, t2 in b.calls() if strip_generics(t2.get('callee') or t2.get('decl') or '').endswith('AddAssign>::add_assign')]
+        cmps_ = [i2 for i2, j2, s2 in b.stmts() if s2['k'] == 'assign' and s2['rv']['k'] == 'bin' and s2['rv']['op'] in ('Gt', 'Ge', 'Lt', 'Le')
+                 and any(mirq.chase_op(b, o)[0] == 'call' and 'AllocatedMemory' in ' '.join(mirq.chase_op(b, o)[1][1].get('substs') or []) for o in (s2['rv']['a'], s2['rv']['b']))]
+        after_add = bool(cmps_) and all(any(mirq.dominates(b, a_, c_) for a_ in adds) for c_ in cmps_)
+        r8.inst({'fn': b.id, 'limit_test_sees_the_total_after_adding': after_add}, ok=after_add, kind='after-add')
+        if not after_add:
+            r8.fail('allocate/compare-before-add', mirq.site(b, cmps_[0] if cmps_ else 0), 'allocate compares the total from before the new bytes are added: an allocation that crosses the limit is granted, so more than L bytes can be accounted for live values without a violation')
         r8.inst({'fn': b.id, 'shape': 'usize::from(stats.size) > size_limit => Err(AllocationLimitReached)'}, ok=cmp_ok)
         if not cmp_ok:
             r8.fail('allocate/compare', mirq.site(b, 0), 'allocate no longer compares the accounted total (after adding) against size_limit with the violation on the exceeding side')
